@@ -298,6 +298,23 @@ def run(out, tier):
                 cov["samples"].append({"pair": j[4], "tol": j[2], "s1": d_of(j[0]), "s2": d_of(j[1]), "verdict": v})
         if hist.get("ok:sound", 0) < 50 or not hist.get("ok:none"):
             raise common.MachineryError("vacuous run: %r" % hist)
+        # the double-width arithmetic of the fine regime, as polynomial identities over Int: TLAPS + Z3
+        import os, re, shutil, subprocess
+        pdir = os.path.join(wd, "proofs")
+        os.makedirs(pdir)
+        shutil.copy(os.path.join(common.SPEC, "proofs", "WideMul.tla"), pdir)
+        try:
+            p = subprocess.run(["tlapm", "--cleanfp", "WideMul.tla"], cwd=pdir, stdout=subprocess.PIPE,
+                               stderr=subprocess.STDOUT, text=True, timeout=900)
+            m = re.search(r"All (\d+) obligations proved", p.stdout)
+            cov["obligations"] = int(m.group(1)) if m else 0
+            cov["discharged"] = int(m.group(1)) if m else 0
+            cov["checker_cmd"] = "tlapm --cleanfp spec/proofs/WideMul.tla"
+            cov["trusted_base"] = ["tlapm 1.6.0-pre", "Z3 back end", "SANY"]
+            if not m:
+                raise common.MachineryError("TLAPS did not discharge WideMul.tla:\n" + p.stdout[-1500:])
+        except (OSError, subprocess.TimeoutExpired) as e:
+            raise common.MachineryError("tlapm failed: %s" % e)
         for j, v in zip(jobs, verdicts):
             if v.startswith("BAD"):
                 out.violation("C20/" + v.split(":", 1)[1] + "/" + j[4].split(" ")[0].split("->")[-1].split("=")[0],
